@@ -201,6 +201,8 @@ func (x *Exec) intrinsic(fn *ssa.Function, args []Val) (Val, bool) {
 			return Bool{C: !math.IsNaN(f.C) && !math.IsInf(f.C, 0)}, true
 		}
 		return x.nmB(Bool{T: "(not (or (fp.isNaN " + f.T + ") (fp.isInfinite " + f.T + ")))"}), true
+	case "verifFingerprint":
+		return Str{}, true
 	case "verifNative":
 		return Bool{C: false}, true
 	case "verifCatch":
